@@ -31,8 +31,8 @@ def atoms(kind, n):
     return [bytes([i % 256]) if n <= 256 else b"%c%c" % (i // 256, i % 256) for i in range(n)]
 
 
-def one(ctx, kind, n, core, do_model=True):
-    parts = atoms(kind, n)
+def one(ctx, kind, n, core, do_model=True, parts=None):
+    parts = parts or atoms(kind, n)
     f = (b"", parts, [True] * n, b"")
     tc = strat.testcase_from_fields(kind if kind != "char" or n <= 256 else "line", f)
     need = [parts[i] for i in sorted(core)]
@@ -102,7 +102,47 @@ def big(ctx, sizes, per, do_model=True):
                 one(ctx, kind, n, core, do_model)
 
 
+def collision_case(ctx, do_model=True):
+    """two distinct atoms whose contents get the same de-duplication key (found by observing the real key function)"""
+    col = strat.find_key_collision()
+    ctx.bump("dedupe-key-collision-found" if col else "dedupe-key-collision-none")
+    if col:
+        a, b = col
+        for parts, core in (([a, b], (0,)), ([a, b], (1,)), ([b, a], (0,)), ([b"x\n", a, b], (1,)), ([b"x\n", a, b], (2,))):
+            one(ctx, "line", len(parts), core, do_model, parts=parts)
+
+
+def on_disk(ctx, N, do_model=True):
+    """the same claim through the real driver: `Lithium.run()` on a file, judged by the file left on disk and the
+    number of times the test was called (m = n, m = 0 and everything between)"""
+    from .. import scripts
+    for n in range(1, N + 1):
+        parts = atoms("line", n)
+        data = b"".join(parts)
+        for m in range(0, n + 1):
+            cores = list(itertools.combinations(range(n), m))
+            for core in (cores if n <= 4 else [cores[0], cores[-1], cores[len(cores) // 2]]):
+                need = [parts[i] for i in core]
+
+                def dec(k, disk, need=need):
+                    lines = set(disk.splitlines(keepends=True))
+                    return "a" if all(p in lines for p in need) else "r"
+
+                o, f, run = scripts.play_real("minimize", {}, "line", data, dec)
+                case = dict(kind="line", n=n, core=list(core), m=m, on_disk=True)
+                ctx.evaluations += 1
+                ctx.bump("on-disk")
+                if o.exit != "r0" and not (o.exit == "r1" and m == n):
+                    ctx.fail("not-the-core", f"on disk, n={n} core={list(core)}: run() ended with {o.exit} {o.exc}", case)
+                if o.disk != b"".join(need):
+                    ctx.fail("not-the-core", f"on disk, n={n} core={list(core)}: the file holds {o.disk!r} after run(), the core is {b''.join(need)!r}", case)
+                if len(o.calls) > bound(n, m):
+                    ctx.fail("too-many-tests", f"on disk, n={n} m={m}: {len(o.calls)} tests > bound {bound(n, m)}", case)
+
+
 def search(ctx):
+    collision_case(ctx, do_model=False)
+    on_disk(ctx, 6, do_model=False)
     small(ctx, 9, do_model=False)
     big(ctx, [16, 31, 32, 33, 63, 64, 65, 100, 127, 128, 129, 255, 256, 257, 511, 512, 513, 768, 1000, 1023, 1024, 1025, 2047, 2048, 2049, 3000],
         3, do_model=False)
@@ -111,6 +151,8 @@ def search(ctx):
 def run(ctx) -> int:
     proof = common.proof_stage(ctx.pid)
     N0 = 10 if ctx.thorough else 8
+    collision_case(ctx)
+    on_disk(ctx, 7 if ctx.thorough else 5)
     small(ctx, N0)
     ctx.exhaustive.append(f"every (n, core) with n <= {N0}")
     sizes = [12, 16, 17, 31, 32, 33, 64, 65, 100, 127, 128, 129, 255, 256, 257, 500, 512, 513, 768, 1000, 1024, 1025]
